@@ -95,6 +95,26 @@ def children(specs: List[Dict[str, Any]], seeds: List[int], n: int) -> Dict[int,
     return out
 
 
+def run_in_child(spec: Dict[str, Any], limit: float) -> str:
+    """Run one request in SYNC mode in a child process that is killed when it does not end (a spinning main loop never sleeps)."""
+    p = subprocess.Popen(["/venv/bin/python", str(VERIF / "harness" / "c04_child.py")], stdin=subprocess.PIPE, stdout=subprocess.PIPE, stderr=subprocess.DEVNULL, text=True,
+                         env=env_for_subprocess())  # fmt: skip
+    assert p.stdin and p.stdout
+    p.stdin.write(json.dumps({"specs": [spec], "run": True}))
+    p.stdin.close()
+    try:
+        p.wait(timeout=limit)
+    except subprocess.TimeoutExpired:
+        p.kill()
+        p.wait()
+        return "timeout"
+    out = p.stdout.read().strip().splitlines()
+    try:
+        return str(json.loads(out[-1]))
+    except Exception:
+        return "child-failed"
+
+
 def run(ctx: Ctx) -> None:
     ctx.extra["rule"] = (
         "requests: seeded link-free DAG requests and requests with 2-3 source groups joined by link trees (inner/left/outer/right, both orientations, "
@@ -155,11 +175,10 @@ def run(ctx: Ctx) -> None:
             fclass = "mutually-dependent-feature-groups" if ("groups" in spec and S.mutual_groups(spec) and o.get("nonempty") and o.get("disjoint")) else None
             ctx.violation("planOK", {"spec": spec, "plan": S.lean_plan(exp)}, what, o, True, finding_class=fclass)
             # the model says such a plan never returns (C04.wait_cycle_never_returns): confirm on the real code with a short watchdog
-            rr = S.run_session(sess, "sync", timeout=5, attempts=1)
-            ctx.case("spin_confirm", {"spec": spec}, True, outcome="timeout" if rr.timed_out else ("raise" if rr.error else "return"))
-            if not rr.timed_out and rr.error is None:
+            outcome = run_in_child(spec, 8.0)
+            ctx.case("spin_confirm", {"spec": spec}, True, outcome=outcome)
+            if outcome == "returned":
                 ctx.disagree("spin_confirm", {"spec": spec, "plan": S.lean_plan(exp)}, "returned", "model: a plan that is not well ranked never returns")
-            S.kill_stray_children()
             continue
         runnable.append((spec, exp, sess))
     # every accepted plan terminates (returns or raises) in every mode
